@@ -116,8 +116,8 @@ SPECS["C25"] = {
               {"engine": "m", "module": "c25"}],
     "functions": ["dicom_ul::pdu::writer::write_pdu (+ write_chunk_u32)", "dicom_ul::pdu::reader::read_pdu"],
     "bounds": "A-RELEASE-RQ/RP, P-DATA-TF with one PDV of 2 symbolic bytes (context id, type, last flag symbolic), unknown PDU type; "
-              "strict prefixes of concrete length per instance; strict mode on an arbitrary 6-byte header with symbolic maximum length",
-    "outside": "A-ABORT and A-ASSOCIATE-RJ (bytes::Bytes pointer tagging defeats CBMC's pointer model: spurious failures that do not replay), A-ASSOCIATE-RQ/AC with their variable items (string building in CBMC: not yet built), items longer than 65535 bytes (length arithmetic planned on Engine M), more than one PDV",
+              "strict prefixes of concrete length per instance; item length fields: write_chunk_u16/u32 for all content lengths <= 2^20 / 2^33 (Engine M)",
+    "outside": "strict mode (read_pdu with a symbolic length field: no verdict in 1500 s), A-ABORT and A-ASSOCIATE-RJ (bytes::Bytes pointer tagging defeats CBMC's pointer model: spurious failures that do not replay), A-ASSOCIATE-RQ/AC with their variable items (string building in CBMC: not yet built), items longer than 65535 bytes (length arithmetic planned on Engine M), more than one PDV",
     "assumptions": ["tracing macros stubbed to disabled", "oracle: PS3.8 9.3 framing checked on the written bytes in kani/ul/src/c25.rs"],
 }
 
@@ -127,7 +127,7 @@ SPECS["C18"] = {
     "functions": ["dicom_encoding::adapters::PixelDataWriter::encode (default method)", "dicom_core::value::fragments::Fragments::new"],
     "bounds": "default encode: 1-3 frames with solver-chosen frame sizes 0-6 (a harness encode_frame emits that many bytes); Fragments::new: (data length, fragment size) "
               "instances (3,0) (4,0) (5,2) (6,4) (5,3) (1,6) (0,0) (0,2) with symbolic bytes",
-    "outside": "frame_pixel_data on objects, From<Vec<Fragments>>, the fragment-count arithmetic at full width (f32), Encapsulated Pixel Data Value Total Length in transcode.rs (global registry + file object)",
+    "outside": "From<Vec<Fragments>> (offset table of the helper: not encoded), Fragments::new arithmetic for data lengths outside [0, 2^16] and [2^24-8, 2^24+24] (z3 unknown), Encapsulated Pixel Data Value Total Length in transcode.rs (global registry + file object)",
     "assumptions": ["a fragment occupies 8 header bytes plus its data padded to even length when written (PS3.5 A.4)"],
 }
 
@@ -154,13 +154,13 @@ SPECS["C05"] = {
     "parts": [
         {"engine": "kani", "group": "enc", "select": r"^c05_|^c03_decode_arbitrary|^c14_parse_len(8|9|11)$", "mem_gb": 10, "timeout": {"quick": 1800, "thorough": 3000},
          "thorough_only": r"len(14|17|19)$"},
-        {"engine": "kani", "group": "ul", "select": r"^c25_strict_mode_header$|^c05_", "mem_gb": 10, "timeout": {"quick": 1800, "thorough": 3000}},
+        {"engine": "kani", "group": "ul", "select": r"^c25_(pdata_1pdv_p8|unknown_p8|release_rq_p5)$", "mem_gb": 12, "timeout": {"quick": 1800, "thorough": 3000}},
     ],
-    "functions": ["dicom_core::value::deserialize::{parse_date, parse_date_partial, parse_time, parse_time_partial, parse_datetime_partial}", "dicom_core::value::range::{parse_date_range, parse_time_range}",
-                  "<Tag as FromStr>::from_str", "explicit LE/BE header decoders on arbitrary bytes", "dicom_ul::pdu::read_pdu on an arbitrary header"],
-    "bounds": "every byte string of the listed lengths (dates 0-10, times 1-14, date-times 4-19, ranges 9-17 bytes; tags 8, 9, 11 bytes; headers 12 bytes; PDU header 6 bytes); "
+    "functions": ["dicom_core::value::deserialize::{parse_date, parse_date_partial, parse_time, parse_time_partial, parse_datetime_partial}", 
+                  "<Tag as FromStr>::from_str", "explicit LE/BE header decoders on arbitrary bytes", "dicom_ul::pdu::read_pdu on every strict prefix of small PDUs"],
+    "bounds": "every byte string of the listed lengths (dates 0-10, times 1-14, date-times 4-19 bytes; tags 8, 9, 11 bytes; headers 12 bytes; PDU prefixes of 5-8 bytes); "
               "no panic, overflow or out-of-bounds access (Kani's checks), every loop within its unwind bound",
-    "outside": "file opening / byte-source readers / collector (BufReader + global registry + dictionary), DICOM JSON text (serde_json), JPEG / deflate / RLE decoders (third-party or measured infeasible: RLE decode_frame 900 s without verdict), "
+    "outside": "range parsers (> 10 GB / 15 min for 9 bytes), file opening / byte-source readers / collector (BufReader + global registry + dictionary), DICOM JSON text (serde_json), JPEG / deflate / RLE decoders (third-party or measured infeasible: RLE decode_frame 900 s without verdict), "
                "data set readers on arbitrary streams and value readers for text VRs (measured > 8 GB), dump; attribute selectors",
     "assumptions": ["Kani's panic / arithmetic overflow / bounds checks as the oracle"],
 }
@@ -171,4 +171,14 @@ SPECS["C29"] = {
     "outside": "agreement of requestor and acceptor on the negotiated contexts and maximum PDU lengths, local rejection of over-long sends, the loopback exchange (sockets, threads): not encoded",
     "assumptions": ["callees of create_a_associate_req other than the context vector's len/is_empty are havocked (unconstrained): an over-approximation, so 'holds' is sound and every counterexample "
                     "is replayed against a real requestor over a loopback socket before it is reported"],
+}
+
+SPECS["C04"] = {
+    "parts": [{"engine": "kani", "group": "parser", "select": r"^c04_", "mem_gb": 14, "timeout": {"quick": 1800, "thorough": 3000}}],
+    "functions": ["dicom_parser::dataset::write::DataSetWriter::{write, write_impl} with both ExplicitLengthSqItemStrategy values", "dicom_parser::stateful::encode::StatefulEncoder::{encode_element_header, encode_item_header, "
+                  "encode_item_delimiter, encode_sequence_delimiter, encode_primitive_element, write_bytes}", "ExplicitVRLittleEndianEncoder (through EncoderFor)"],
+    "bounds": "token sequences of fixed shape with symbolic tag / value bytes / choice of defined vs undefined input lengths: one sequence with one item holding a US element; "
+              "an encapsulated pixel data element (empty offset table, one 2-byte fragment) followed by such a sequence; Explicit VR LE",
+    "outside": "other VRs and odd-length padding of values (per-VR element encoding is not harnessed here), Implicit VR LE / Explicit VR BE instances, whole files, byte counts reported by BasicEncode::encode_primitive",
+    "assumptions": ["oracle: reference PS3.5 encoder for these shapes written in kani/parser/src/c04.rs", "dictionary lookup and tracing stubbed"],
 }
